@@ -1,8 +1,20 @@
 import PanqecVerif.Generated.InstToric3DCode
+import PanqecVerif.Proofs.MaskFast
 namespace Panqec.Instances
 open Panqec
-set_option maxRecDepth 1000000 in
-theorem Toric3DCode_valid :
-    (Generated.Toric3DCode.all.all fun p => checkValid p.1 p.2 && reportedDistanceOK p.1) = true := by
+
+/-- kernel evaluation of the (linear-time) checker on every generated instance -/
+theorem Toric3DCode_check :
+    (Generated.Toric3DCode.all.all fun p =>
+      checkValidFast p.1 p.2 && reportedDistanceFast p.1) = true := by
   decide +kernel
+
+/-- every generated Toric3DCode instance is a valid `[[n, k]]` code with the reported distance -/
+theorem Toric3DCode_valid : ∀ p ∈ Generated.Toric3DCode.all,
+    ValidCodeL p.1.n p.1.k (p.1.stabs.map (unpackBits (2 * p.1.n)))
+      (p.1.logX.map (unpackBits (2 * p.1.n))) (p.1.logZ.map (unpackBits (2 * p.1.n))) ∧
+    distance (p.1.logX.map (unpackBits (2 * p.1.n))) (p.1.logZ.map (unpackBits (2 * p.1.n)))
+      = some p.1.d :=
+  instances_sound _ Toric3DCode_check
+
 end Panqec.Instances
